@@ -373,6 +373,9 @@ def stream_shard(desc):
             J.r5.inconclusive.append('case %s missing' % c.id)
             continue
         judge_stream_case(J, c, p, xs, marks, kind, recs)
+    if plan:
+        J.r5.ensure_sample(plan[0][0])
+        J.r15.ensure_sample(plan[0][0])
     for a, b, ma, mb, p, xs, kind in mirror:
         ra, rb = logs.get(a.id), logs.get(b.id)
         if ra is None or rb is None:
